@@ -186,6 +186,13 @@ def run(ctx) -> None:
                     if base != "self" or g.owner_class is not an.Context:
                         rep.violate("C18.R3", g, n, f"resource_added is dispatched on `{ast.unparse(recv)}` (another context than the one the publication happened in)")
 
+    # a registration that raises after the context was changed (in the method itself or in a
+    # ComponentContext wrapper after delegating) is a failing call that has already announced
+    # - or a publication that is never announced: the failure-atomicity obligation of C03
+    from .common import include_rules
+
+    include_rules(ctx, "c03", "C18.R2", only=("C03.R1",))
+
     # R5 wrappers add none
     for nm, w in an.ComponentContext.methods.items():
         ds = an.dispatch_calls(w)
